@@ -47,7 +47,7 @@ class SeqMatch(typing.Generic[_S]):
             ]  # type: ignore
         elif span[1] >= len(self.rec) > span[0]:
             return (
-                self.rec[: span[1] % len(self.rec)] + self.rec[span[0] :]
+                self.rec[span[0] :] + self.rec[: span[1] % len(self.rec)]
             )  # type: ignore
         else:
             return self.rec[span[0] : span[1]]  # type: ignore
